@@ -393,6 +393,14 @@ def build(seed, tier, ending, status, mode, g, atc_exit=None, sweep=False):
                                                     not it.get('text', '').startswith('including')):
                     it['desc'] = 'a description\nof two lines'
         combos.append('described_instructions')
+    lg = kernel.stream(seed, 'layout')
+    if lg.random() < 0.3:
+        # how the text is spread over files is no business of the outcome table: a section may start by including a file
+        # ([conf]: one that sets a status which the case's own `status = ...`, following the directive, replaces)
+        fi = [ph for ph in casegen.INSTR_PHASES if lg.random() < 0.4]
+        if fi:
+            case['layout'] = {'first_include': fi}
+            combos.append('section_starts_by_including_a_file')
     plan = {'format': 1, 'property': PROPERTY, 'engine': 'c02', 'run_seed': seed, 'tier': tier, 'combos': combos,
             'knobs': {'mem_buff_size': g.choice([1, 7, 8192])}, 'entry': 'cli', 'status': status, 'mode': mode,
             'ending': ending, 'case': case, 'procs': procs, 'faults': faults, 'fsfaults': fsfaults, 'files': files,
@@ -423,8 +431,10 @@ def _fingerprint(plan):
 
 def execute(plan, scratch):
     w = world_mod.World(os.path.join(scratch, 'w'))
-    text = casegen.render_case(plan['case'], plan['status']) + plan['case'].get('tail', '')
-    w.write('home/t.case', text)
+    files = casegen.render_files(plan['case'], plan['status'])
+    text = files['t.case'] + plan['case'].get('tail', '')
+    for name, ftext in files.items():
+        w.write('home/' + name, text if name == 't.case' else ftext)
     w.populate(plan.get('files', {}))
     procs = plan['procs']
     if procs.get('pp', {}).get('stdout') == '@CASE@':
